@@ -112,6 +112,8 @@ class Writer:
             forms += ["v/d"]
         if self.risky:
             forms += ["(c1+c2)*v", "c1*v+c2*v", "c*(v+k)", "(v+k)**1*c", "-(c*v)", "Const*v", "c*v**1"]
+            if c > 0 and (c ** 0.5 * 4).is_integer():
+                forms += ["(C1+C2)**2*v", "(C1+C2)**2*v"]
         f = rng.choice(forms)
         if f == "c*v":
             return ["bin", "*", lit(c), v], 0.0
@@ -131,6 +133,11 @@ class Writer:
         if f == "c1*v+c2*v":
             c1 = q(rng, -2, 2)
             return ["bin", "+", ["bin", "*", lit(c1), v], ["bin", "*", v, lit(c - c1)]], 0.0
+        if f == "(C1+C2)**2*v":
+            r_ = c ** 0.5 * rng.choice([1.0, -1.0])
+            c1 = q(rng, -2, 2)
+            node = ["bin", "**", ["bin", "+", ["const", c1, "float"], ["const", r_ - c1, "float"]], ["raw", 2, "int"]]
+            return (["bin", "*", node, v] if rng.random() < 0.5 else ["bin", "*", v, node]), 0.0
         if f == "c*(v+k)":
             k = q(rng, -2, 2)
             return ["bin", "*", lit(c), ["bin", "+", v, lit(k)]], c * k
@@ -157,8 +164,15 @@ class Writer:
             forms += ["c*sum", "sum*c", "sum/d"] if cs[0] != 1 else ["sum", "sum", "sum"]
         if self.risky:
             forms += ["arr@(v+b)", "arr@(k*v)", "(v*k)@arr", "consts.dot(v)", "v.dot(consts)", "(v+b).dot(consts)"]
+            if len(set(cs)) == 1 and cs[0] != 0:
+                forms += ["c*(v**1).sum()", "c*(v*1).sum()"]
         f = rng.choice(forms)
         arr = ["arr", cs]
+        if all(float(c).is_integer() and 0 <= c < 200 for c in cs) and rng.random() < 0.6:
+            # the user's data as an unsigned / narrow integer array (prices, counts): same numbers, another dtype
+            arr = ["arr", [int(c) for c in cs], rng.choice(["uint8", "uint16", "uint32", "int8", "int64", "bool_"] if all(c in (0, 1) for c in cs) else ["uint8", "uint16", "uint32", "uint64", "int8", "int16", "int64"])]
+        elif all(float(c).is_integer() and abs(c) < 100 for c in cs) and rng.random() < 0.3:
+            arr = ["arr", [int(c) for c in cs], rng.choice(["int8", "int16", "int32"])]
         if f == "arr@v":
             return ["matmul", arr, vecnode], 0.0
         if f == "v@arr":
@@ -175,11 +189,17 @@ class Writer:
             if (1 / cs[0]) * 4 == int((1 / cs[0]) * 4):
                 return ["bin", "/", ["sum", vecnode], ["raw", 1 / cs[0], "float"]], 0.0
             return ["bin", "*", ["raw", cs[0], "float"], ["sum", vecnode]], 0.0
+        if f == "c*(v**1).sum()":
+            return ["bin", "*", ["raw", cs[0], "float"], ["sum", ["vpow", vecnode, 1]]], 0.0
+        if f == "c*(v*1).sum()":
+            return ["bin", "*", ["raw", cs[0], "float"], ["sum", ["vbin", "*", vecnode, ["raw", 1.0, "float"]]]], 0.0
         if f == "mv-el":
             rows = rng.randint(1, 3)
             i = rng.randrange(rows)
             M = [[q(rng, -2, 2) for _ in range(n)] for _ in range(rows)]
             M[i] = list(cs)
+            if rng.random() < 0.35:
+                return ["el", ["mv", M, vecnode, rng.choice(["F", "T", "flipud", "strided"])], i], 0.0
             return ["el", ["mv", M, vecnode], i], 0.0
         if f == "arr@(v+b)":
             if rng.random() < 0.5:
@@ -236,10 +256,13 @@ class Writer:
         vector node itself).  Returns (node, const)."""
         cs = [coefs.get(nm, 0.0) for nm in names]
         f = self.rng.choice(["arr@v", "v@arr", "list@", "v.dot(list)", "consts.dot(v)"] + (["sum"] if set(cs) == {1.0} else []))
+        arr = ["arr", cs]
+        if all(float(c).is_integer() and 0 <= c < 200 for c in cs) and self.rng.random() < 0.7:
+            arr = ["arr", [int(c) for c in cs], self.rng.choice(["uint8", "uint16", "uint32", "uint64"])]
         if f == "arr@v":
-            return ["matmul", ["arr", cs], vecnode], 0.0
+            return ["matmul", arr, vecnode], 0.0
         if f == "v@arr":
-            return ["matmul", vecnode, ["arr", cs]], 0.0
+            return ["matmul", vecnode, arr], 0.0
         if f == "list@":
             return ["matmul", vecnode, ["list", cs]], 0.0
         if f == "v.dot(list)":
@@ -275,6 +298,18 @@ class Writer:
             v = self.elem[rng.choice(self.names)]
             pieces.append(["bin", "*", ["raw", k, "float"], ["bin", "**", v, ["raw", 0, "int"]]])
             residual -= k
+        if self.risky and rng.random() < 0.08 and views:
+            # a constant spelled as (view ** 0).sum() = number of elements
+            vn, nms = rng.choice(views)
+            k = q(rng, -2, 2, nz=True)
+            pieces.append(["bin", "*", ["raw", k, "float"], ["sum", ["vpow", vn, 0]]])
+            residual -= k * len(nms)
+        if self.risky and rng.random() < 0.12:
+            # a constant spelled as a power of a constant sub-expression: (1 + rate) ** 2
+            a_, b_ = q(rng, -2, 2), q(rng, -1, 2)
+            k_ = rng.choice([2, 2, 3])
+            pieces.append(["bin", "**", ["bin", "+", ["const", a_, "float"], ["const", b_, "float"]], ["raw", k_, "int"]])
+            residual -= (a_ + b_) ** k_
         if self.risky and rng.random() < 0.1:
             # a constant spelled as a quadratic form / dot product of constant vectors
             a_, b_ = q(rng, -2, 2), q(rng, -2, 2)
@@ -366,11 +401,17 @@ def draw_lp(rng, layout=None, kind="any", risky=True, max_rows=5):
             # strictly monotone weights: never a palindrome
             for k_, nm in enumerate(ov[1]):
                 c[nm] = 0.5 + 0.75 * k_
+        elif rng.random() < 0.5:
+            # counts / prices: small non-negative integers (written as unsigned arrays by pure_piece)
+            for k_, nm in enumerate(ov[1]):
+                c[nm] = float(rng.randint(1, 9))
         c0 = 0.0
         pure_obj, _k = W.pure_piece(ov[0], ov[1], c)
         for _ in range(rng.randint(1, 4)):
             rv = rng.choice(fam)
             coef = {nm: q(rng, -3, 3, nz=True) for nm in rv[1]}
+            if rng.random() < 0.5:
+                coef = {nm: float(rng.randint(1, 7)) for nm in rv[1]}
             s_ = rng.choice(["<=", ">=", "<=", ">=", "=="])
             rhs = fix_rhs(coef, s_, q(rng, -4, 6))
             lhs, _k = W.pure_piece(rv[0], rv[1], coef)
@@ -431,7 +472,12 @@ def draw_lp(rng, layout=None, kind="any", risky=True, max_rows=5):
             M = [[q(rng, -2, 2) for _ in vnames] for _ in range(k)]
             s = rng.choice(["<=", ">=", "=="])
             bs = [fix_rhs({nm: cf for nm, cf in zip(vnames, row)}, s, q(rng, -2, 5)) for row in M]
-            cons.append(["rel", s, ["mv", M, vecnode], ["arr", bs], "direct"])
+            if rng.random() < 0.3:
+                M = [[float(abs(int(v * 2))) for v in row] for row in M]
+                bs = [fix_rhs({nm: cf for nm, cf in zip(vnames, row)}, s, q(rng, -2, 5)) for row in M]
+                cons.append(["rel", s, ["mv", [[int(v) for v in row] for row in M], vecnode, rng.choice(["uint8", "uint16", "int8"])], ["arr", bs], "direct"])
+            else:
+                cons.append(["rel", s, ["mv", M, vecnode], ["arr", bs], "direct"])
             for row, bv in zip(M, bs):
                 rows.append({"coef": {nm: cf for nm, cf in zip(vnames, row)}, "sense": s, "rhs": bv})
     if kind == "infeasible":
